@@ -22,11 +22,12 @@ func (p *Player) handleKeepAlivePacket(packet pk.Packet) error {
 
 	p.resetKeepAliveDeadline()
 
-	// Response
-	err := p.c.Conn.WritePacket(pk.Packet{
-		ID:   int32(packetid.ServerboundKeepAlive),
-		Data: packet.Data,
-	})
+	// Response. The answer is queued: it must not share the buffer of the received
+	// packet, which goes back to the pool as soon as this handler returns.
+	err := p.c.Conn.WritePacket(pk.Marshal(
+		packetid.ServerboundKeepAlive,
+		KeepAliveID,
+	))
 	if err != nil {
 		return Error{err}
 	}
